@@ -24,6 +24,20 @@ func genC07(t *rapid.T) *Case {
 	p.Top = append(append([]wc{}, p.Top...), nest...)
 	p.Core = append(append([]wc{}, p.Core...), nest...)
 	p.Nested = append(append([]wc{}, nestedText...), wc{"list", 12}, wc{"quote", 6}, wc{"pre", 4}, wc{"dtable", 4})
+	// attributes that change nothing: presentational roles on lists, aria-hidden="false"
+	p.Attr = func(g *G, tag string) string {
+		switch tag {
+		case "ul", "ol":
+			if g.intn(0, 6, "listrole") == 0 {
+				return g.pick("listrolev", ` role="presentation"`, ` role="none"`, ` role="list"`)
+			}
+		case "li", "tr", "td", "th", "blockquote", "pre":
+			if g.intn(0, 11, "ariafalse") == 0 {
+				return ` aria-hidden="false"`
+			}
+		}
+		return ""
+	}
 	g := newG(t, p)
 	c := &Case{Property: "C07", HTML: g.page()}
 	c.Opts = genOpts(t, 30)
